@@ -574,7 +574,7 @@ func (P *Program) directMods(fn *ssa.Function) (map[string]bool, []*ssa.Function
 			return
 		}
 		key := FuncKey(callee)
-		if fc := P.contractFor(key); fc != nil && fc.Trusted {
+		if fc := P.contractFor(key); fc != nil && (fc.Trusted || fc.Pure) {
 			P.contractMods(fc, c, out)
 			return
 		}
